@@ -1,267 +1,471 @@
 """C07 - DiagramRule passes exactly when the imports conform to the diagram.
 
   C07.R1  rule generation: one should(-only) rule per component with arrows over all its targets; one should-not rule per component
-          over all non-targets other than itself, emitted iff non-empty; both lists concatenated
-  C07.R2  aggregation: all rules are evaluated, only AssertionError is collected, the joined message is raised after the loop
+          over all non-targets other than itself, emitted iff non-empty; nothing else
+  C07.R2  aggregation: all rules are evaluated, only AssertionError is collected, the joined message is raised after the loop and
+          contains the message of EVERY element whose assert_applies raised (bag of joined lines = bag of caught messages: no
+          overwrite by a key that two rules can share, no selection, no truncation); the aggregate of one evaluation contains
+          nothing from earlier evaluations
   C07.R3  prefixing: with_base_module(p) prefixes the component set, the keys and the values; identity without a base module;
           the pipeline parse -> prefix -> convert -> apply hands each stage's result to the next; default mode is should-only
+
+How: the public entry points that the test-suite pins (`DependencyToRuleConverter(flag).convert(pd)`, `ModulePrefixer.prefix(pd, p)`,
+`MultipleRuleApplier(rules).assert_applies(ev)`, the fluent `DiagramRule` protocol) are evaluated *symbolically* (rules/c07_sym.py:
+an abstract interpreter over the AST, nothing is executed) on symbolic inputs; the resulting terms are brought into a normal form
+(rules/c07_norm.py: collections as unions of generators over atomic sources, conditions compared by exhaustive evaluation) and
+compared with the normal form of a specification written as plain python below and evaluated by the same interpreter.  Private
+helper names, local names, loop / comprehension / generator / closure / early-return spellings do not occur in the comparison.
+Normal forms that differ as text are interpreted over small finite models (rules/c07_model.py): equal on all of them = a spelling
+the normaliser does not unify (silent); different on one = VIOLATION with that model as counterexample; not interpretable (an
+opaque part) = undecided, unless an input is provably lost (the result does not depend on it at all).
+
+Outcomes: VIOLATION needs a counterexample model, a lost input, or a `raise` inside the loop over the rules; code the evaluator
+cannot model (while / with / recursion / unknown containers ...) makes the affected comparison undecided, never violated.
+`engine/rules/c07_variants.py` is a developer corpus of ~40 re-spellings (must stay silent) and breaking changes in the same
+idioms (must fire); run it after touching the evaluator.
 """
 
 from __future__ import annotations
 
 import ast
 
-from core.cfg import EXIT
-from core.flow import Flow, Spec
-from core.guards import atom, equivalent, f_not, implies
-from core.loader import AnalysisError, FuncInfo, Repo, ancestors, calls_in, header, norm, own_nodes, parent
+from core.loader import AnalysisError, ClassInfo, FuncInfo, Repo
 from core.report import Result
 
-from .common import cfg_of, conds, dotted, guard_formula, is_attr_call, loops_around, stmt_of, truth, types_of, where
+from .c07_model import semantic_compare
+from .c07_norm import Norm, canon, canon_gen, cases, diff_bags, rename_try, try_names
+from .c07_sym import Evaluator, Obj
 
 DRULE = "pytestarch.diagram_extension.diagram_rule"
 DCONV = "pytestarch.diagram_extension.dependency_to_rule_converter"
+DPARS = "pytestarch.diagram_extension.diagram_parser"
+DPDEP = "pytestarch.diagram_extension.parsed_dependencies"
 MULTI = "pytestarch.query_language.multiple_rule_applier"
+QRULE = "pytestarch.query_language.rule"
+
+SPEC_CONVERT = """
+def spec(FLAG, M, D):
+    should = [
+        (Rule().modules_that().are_named(k).should_only().import_modules_that().are_named(D[k])
+         if FLAG else
+         Rule().modules_that().are_named(k).should().import_modules_that().are_named(D[k]))
+        for k in D
+    ]
+    should_not = [
+        Rule().modules_that().are_named(m).should_not().import_modules_that().are_named(M - {m} - D.get(m, set()))
+        for m in M
+        if M - {m} - D.get(m, set())
+    ]
+    return should + should_not
+RES = spec(FLAG, M, D)
+"""
+
+SPEC_PREFIX = """
+def spec(M, D, P):
+    q = (lambda n: n) if P is None else (lambda n: f"{P}.{n}")
+    return PD({q(m) for m in M}, {q(k): {q(v) for v in D[k]} for k in D})
+RES = spec(M, D, P)
+"""
+
+SPEC_APPLY = """
+def spec(R, EV):
+    messages = []
+    for r in R:
+        try:
+            r.assert_applies(EV)
+        except AssertionError as e:
+            messages.append(e.args[0])
+    if messages:
+        raise AssertionError("\\n".join(messages))
+spec(R, EV)
+"""
 
 
-def chain(e: ast.expr) -> list[tuple[str, list[ast.expr]]]:
-    """Method chain of a fluent expression, innermost first: Rule().modules_that().are_named(x) -> [Rule, modules_that, are_named]."""
-    out = []
-    while isinstance(e, ast.Call):
-        if isinstance(e.func, ast.Attribute):
-            out.append((e.func.attr, list(e.args)))
-            e = e.func.value
-        elif isinstance(e.func, ast.Name):
-            out.append((e.func.id, list(e.args)))
-            break
+def sym(name: str):
+    return ("sym", name)
+
+
+# --------------------------------------------------------------------------- anchors
+
+
+def find_class(repo: Repo, modname: str, clsname: str) -> ClassInfo:
+    m = repo.modules.get(modname)
+    if m is not None:
+        if clsname in m.classes:
+            return m.classes[clsname]
+        if clsname in m.imports:
+            fq = repo._canonical(m.imports[clsname])
+            if fq in repo.classes:
+                return repo.classes[fq]
+    hits = [c for c in repo.classes.values() if c.name == clsname]
+    if len(hits) == 1:
+        return hits[0]
+    raise AnalysisError(f"anchor class {clsname} (public API, expected in {modname}) not found")
+
+
+def method(repo: Repo, ci: ClassInfo, name: str) -> FuncInfo:
+    f = repo.lookup_method(ci, name)
+    if f is None:
+        raise AnalysisError(f"anchor method {ci.name}.{name} (public API) not found")
+    return f
+
+
+class Anchors:
+    def __init__(self, repo: Repo) -> None:
+        self.conv = find_class(repo, DCONV, "DependencyToRuleConverter")
+        self.convert = method(repo, self.conv, "convert")
+        self.pd = find_class(repo, DPDEP, "ParsedDependencies")
+        self.rule = find_class(repo, QRULE, "Rule")
+        self.mra = find_class(repo, MULTI, "MultipleRuleApplier")
+        self.mra_apply = method(repo, self.mra, "assert_applies")
+        self.prefixer = find_class(repo, DRULE, "ModulePrefixer")
+        self.prefix = method(repo, self.prefixer, "prefix")
+        self.drule = find_class(repo, DRULE, "DiagramRule")
+        self.dr_apply = method(repo, self.drule, "assert_applies")
+        for n in ("from_file", "with_base_module", "base_module_included_in_module_names"):
+            method(repo, self.drule, n)
+        self.parser = find_class(repo, DPARS, "PumlParser")
+        self.parse = method(repo, self.parser, "parse")
+        fields = []
+        for c in reversed(repo.mro(self.pd)):
+            fields += [k for k in c.ann_attrs if k not in fields]
+        if fields[:2] != ["all_modules", "dependencies"]:
+            raise AnalysisError(f"ParsedDependencies fields are {fields}: expected (all_modules, dependencies)")
+
+    def variables(self) -> dict:
+        return {
+            "CONV": ("class", self.conv.fq),
+            "PD": ("class", self.pd.fq),
+            "Rule": ("class", self.rule.fq),
+            "MRA": ("class", self.mra.fq),
+            "PREFIXER": ("class", self.prefixer.fq),
+            "DRULE": ("class", self.drule.fq),
+            "PARSER": ("class", self.parser.fq),
+            "M": sym("M"),
+            "D": sym("D"),
+            "P": sym("P"),
+            "FLAG": sym("FLAG"),
+            "R": sym("R"),
+            "EV": sym("EV"),
+            "EV1": sym("EV1"),
+            "EV2": sym("EV2"),
+            "PATH": sym("PATH"),
+        }
+
+
+def where_of(f: FuncInfo) -> str:
+    return f"{f.relpath}:{getattr(f.node, 'lineno', 0)}"
+
+
+# --------------------------------------------------------------------------- running
+
+
+def new_eval(repo: Repo, A: Anchors, stages: dict[str, str] | None = None) -> Evaluator:
+    ev = Evaluator(repo, fluent_roots={A.rule.name}, stages=stages or {})
+    return ev
+
+
+def run_source(ev: Evaluator, A: Anchors, src: str, extra: dict | None = None):
+    variables = A.variables()
+    variables.update(extra or {})
+    try:
+        _r, fr = ev.run_stmts(ast.parse(src).body, variables, None)
+    except RecursionError as e:  # pragma: no cover
+        raise AnalysisError(f"symbolic evaluation does not terminate: {e}") from e
+    except RuntimeError as e:
+        raise AnalysisError(str(e)) from e
+    return fr
+
+
+def trace_of(ev: Evaluator, start: int = 0, stop: int | None = None):
+    items = ev.trace.items[start:stop]
+    return ev.resolve(("coll", "list", tuple(items)))
+
+
+def syms_of(t, out=None) -> set[str]:
+    out = out if out is not None else set()
+    if isinstance(t, tuple) and t:
+        if t[0] == "sym":
+            out.add(t[1])
         else:
+            for x in t:
+                if isinstance(x, (tuple, list)):
+                    syms_of(tuple(x), out)
+    return out
+
+
+def msg_norm(t):
+    """`str(e)` of a caught exception and `e.args[0]` denote the message."""
+    if isinstance(t, tuple) and t:
+        if t[0] == "str" and isinstance(t[1], tuple) and t[1] and t[1][0] == "caught":
+            return ("index", ("attr", t[1], "args"), ("const", 0))
+        return tuple(msg_norm(x) if isinstance(x, tuple) else x for x in t)
+    return t
+
+
+class Comparison:
+    """One symbolic run compared with its specification; turns differences into obligations / undecided entries."""
+
+    def __init__(self, res: Result, rule: str, key: str, where: str, ev: Evaluator) -> None:
+        self.res = res
+        self.rule = rule
+        self.key = key
+        self.where = where
+        self.ev = ev
+
+    def skipped(self, what: str) -> bool:
+        if self.ev.skipped:
+            self.res.undecide(self.rule, f"{self.key}::{what}", "the symbolic evaluation met code it cannot model: " + "; ".join(self.ev.skipped[:3]), self.where)
+            return True
+        return False
+
+    def compare(self, what: str, actual, expected, ev_e: Evaluator, atoms: list, dict_syms: set[str], assume: dict | None = None, case_names: dict | None = None, kind: str = "structural", expected_labels=None) -> bool:
+        """Adds one obligation per generator of the specification (and one for 'nothing else') per case. Returns overall ok."""
+        if self.skipped(what):
+            return False
+        all_ok = True
+        for case in cases(atoms):
+            label = ", ".join((case_names or {}).get((k, v), f"{k}={v}") for k, v in case.items())
+            suffix = f" [{label}]" if label else ""
+            asm = dict(assume or {})
+            asm.update(case)
+            na_ = Norm(asm, self.ev.cut_loops, dict_syms)
+            na = na_.N(msg_norm(actual))
+            ne_ = Norm(asm, ev_e.cut_loops, dict_syms)
+            ne = ne_.N(msg_norm(expected))
+            na = rename_try(na, try_names(na))
+            ne = rename_try(ne, try_names(ne))
+            extra, missing, exp_gens = diff_bags(na, ne)
+            if not extra and not missing:
+                for text in exp_gens:
+                    self.res.add(self.rule, f"{self.key}::{what}{suffix} {short(text)}", True, "computed as specified", self.where, kind=kind)
+                self.res.add(self.rule, f"{self.key}::{what}{suffix} nothing else", True, "no further element", self.where, kind=kind)
+                continue
+            # the normal forms differ as text: interpret both over small finite models (semantic back-stop)
+            fixed = {}
+            if "nonempty(FLAG)" in asm:
+                fixed["FLAG"] = asm["nonempty(FLAG)"]
+            if "P is None" in asm:
+                fixed["P"] = None if asm["P is None"] else "p"
+            status, info = semantic_compare(na, ne, fixed)
+            if status == "equal":
+                for text in exp_gens:
+                    self.res.add(self.rule, f"{self.key}::{what}{suffix} {short(text)}", True, f"computed as specified (spelled differently; equal on all {info} finite models)", self.where, kind=kind)
+                self.res.add(self.rule, f"{self.key}::{what}{suffix} nothing else", True, "no further element", self.where, kind=kind)
+                continue
+            all_ok = False
+            counterexample = " Counterexample " + info if status == "differ" else ""
+            imprecise = list(dict.fromkeys(na_.opaque + self.ev.problems)) or [f"the difference cannot be evaluated on finite models ({info})"]
+            # definite, whatever else is imprecise: a `raise` inside a loop ends the loop at that element
+            in_loop = lambda n: [g for g in (n[1] if n[0] == "bag" else ()) if g[1][0] == "raise" and g[2] and g[1][1] != ("reraise",)]  # noqa: E731
+            loop_raise = in_loop(na) and not in_loop(ne)
+            if loop_raise:
+                g = in_loop(na)[0]
+                self.res.add(self.rule, f"{self.key}::{what}{suffix} {short(canon_gen(g, {}, 0))}", False, f"{what}: `{short(canon_gen(g, {}, 0), 300)}` raises inside the loop: the remaining elements are never processed." + counterexample, self.where, kind="dominance")
+            reported = bool(loop_raise)
+            for text in exp_gens:
+                construct = f"{self.key}::{what}{suffix} {short(text)}"
+                if text not in missing:
+                    self.res.add(self.rule, construct, True, "computed as specified", self.where, kind=kind)
+                    continue
+                need = syms_of(ne) if len(exp_gens) == 1 else syms_named(text, syms_of(ne))
+                lost = sorted(need - syms_of(na))
+                if not counterexample and not lost:
+                    # neither a counterexample nor a lost input: no verdict on this part
+                    self.res.undecide(self.rule, construct, "cannot be compared precisely: " + "; ".join(imprecise[:3]), self.where)
+                    continue
+                why = f"does not depend on {', '.join(lost)} at all; " if lost else ""
+                got = "; ".join(short(x, 600) for x in extra[:2]) or "nothing"
+                cut = " - a loop is cut short by `break`" if any("cut-short" in x for x in extra) else ""
+                self.res.add(self.rule, construct, False, f"{what}: the specified part `{short(text, 300)}` is not computed ({why}found instead: {got}){cut}." + counterexample, self.where, kind=kind)
+                reported = True
+            construct = f"{self.key}::{what}{suffix} nothing else"
+            if missing and (reported or not counterexample):
+                # extras next to a missing part are reported there
+                self.res.add(self.rule, construct, True, "no further element", self.where, kind=kind)
+            elif counterexample:
+                got = "; ".join(short(x, 300) for x in extra[:2])
+                self.res.add(self.rule, construct, False, f"{what}: " + (f"additionally computes `{got}`, which the specification does not contain." if got else "differs from the specification.") + counterexample, self.where, kind=kind)
+            else:
+                self.res.undecide(self.rule, construct, "cannot be compared precisely: " + "; ".join(imprecise[:3]), self.where)
+        return all_ok
+
+
+def syms_named(text: str, universe: set[str]) -> set[str]:
+    import re
+
+    return {s for s in universe if re.search(rf"\b{re.escape(s)}\b", text)}
+
+
+def short(text: str, n: int = 110) -> str:
+    return text if len(text) <= n else text[: n - 3] + "..."
+
+
+# --------------------------------------------------------------------------- the rules
+
+
+def check_convert(repo: Repo, res: Result, A: Anchors) -> None:
+    ev = new_eval(repo, A)
+    fr = run_source(ev, A, "RES = CONV(FLAG).convert(PD(M, D))")
+    actual = ev.resolve(fr.env.vars.get("RES", ("const", None)))
+    ev_e = new_eval(repo, A)
+    fe = run_source(ev_e, A, SPEC_CONVERT)
+    expected = ev_e.resolve(fe.env.vars["RES"])
+    key = f"{A.convert.relpath}::{A.conv.name}.convert"
+    c = Comparison(res, "C07.R1", key, where_of(A.convert), ev)
+    names = {("nonempty(FLAG)", True): "should-only mode", ("nonempty(FLAG)", False): "should mode"}
+    c.compare("generated rules", actual, expected, ev_e, [("truthy", sym("FLAG"))], {"D"}, case_names=names, kind="decision-table")
+    extra_effects(res, "C07.R1", key, where_of(A.convert), ev, "rule generation")
+
+
+def extra_effects(res: Result, rule: str, key: str, where: str, ev: Evaluator, what: str) -> None:
+    """Pure stages must not call out / raise."""
+    tr = trace_of(ev)
+    n = Norm({}, ev.cut_loops).N(tr)
+    gens = n[1] if n[0] == "bag" else ()
+    bad = [canon_gen(g, {}, 0) for g in gens if g[1][0] == "raise"]
+    if bad and not ev.skipped:
+        res.add(rule, f"{key}::{what} raises", False, f"{what} raises: {short(bad[0], 200)}", where, kind="effect")
+
+
+def check_applier(repo: Repo, res: Result, A: Anchors) -> None:
+    ev = new_eval(repo, A)
+    run_source(ev, A, "MRA(R).assert_applies(EV)")
+    actual = trace_of(ev)
+    ev_e = new_eval(repo, A)
+    run_source(ev_e, A, SPEC_APPLY)
+    expected = trace_of(ev_e)
+    key = f"{A.mra_apply.relpath}::{A.mra.name}.assert_applies"
+    c = Comparison(res, "C07.R2", key, where_of(A.mra_apply), ev)
+    c.compare("aggregation", actual, expected, ev_e, [], set(), kind="effect")
+
+
+def check_prefix(repo: Repo, res: Result, A: Anchors) -> None:
+    ev = new_eval(repo, A)
+    fr = run_source(ev, A, "RES = PREFIXER.prefix(PD(M, D), P)")
+    actual = ev.resolve(fr.env.vars.get("RES", ("const", None)))
+    ev_e = new_eval(repo, A)
+    fe = run_source(ev_e, A, SPEC_PREFIX)
+    expected = ev_e.resolve(fe.env.vars["RES"])
+    key = f"{A.prefix.relpath}::{A.prefixer.name}.prefix"
+    c = Comparison(res, "C07.R3", key, where_of(A.prefix), ev)
+    names = {("P is None", True): "no base module", ("P is None", False): "base module p"}
+    for fld, label in (("all_modules", "component set"), ("dependencies", "arrows (keys and values)")):
+        c.compare(label, ("attr", actual, fld), ("attr", expected, fld), ev_e, [("is", sym("P"), ("const", None))], {"D"}, case_names=names, kind="flow")
+        if ev.skipped:
             break
-    if isinstance(e, ast.Name):
-        out.append((f"${e.id}", []))
-    return list(reversed(out))
+    extra_effects(res, "C07.R3", key, where_of(A.prefix), ev, "prefixing")
+
+
+def parse_hook(A: Anchors):
+    def hook(ev: Evaluator, stage: str, bound: dict, node):
+        if stage != "parse":
+            return None
+        # the parsed diagram is a function of the path only (re-reading the file or caching the result are the same thing)
+        args = [ev.snapshot(v) for k, v in bound.items() if k not in ("self", "cls")]
+        tag = "" if args == [sym("PATH")] else "<" + ", ".join(canon(Norm().N(a), {}, 0) for a in args) + ">"
+        o = Obj(ev.fresh(), A.pd, {"all_modules": sym("M" + tag), "dependencies": sym("D" + tag)})
+        ev.heap_objs[o.oid] = o
+        return ("obj", o.oid)
+
+    return hook
+
+
+PROTOCOLS = [
+    ("with_base_module(p), explicit mode", "r = DRULE(FLAG).from_file(PATH).with_base_module(P)", "FLAG", "P"),
+    ("with_base_module(p), keyword mode", "r = DRULE(should_only_rule=FLAG).from_file(PATH).with_base_module(P)", "FLAG", "P"),
+    ("base_module_included_in_module_names(), default mode", "r = DRULE().from_file(PATH).base_module_included_in_module_names()", "True", "None"),
+]
+REFERENCE = "MRA(CONV({flag}).convert(PREFIXER.prefix(PARSER().parse(PATH), {p}))).assert_applies({ev})"
+
+
+def check_pipeline(repo: Repo, res: Result, A: Anchors) -> None:
+    """DiagramRule.assert_applies == apply(convert(prefix(parse(path), base module))), twice on the same rule object.
+
+    First with the three pure stages summarised (`<prefix>(...)`, `<convert>(...)` terms: differences are named at stage level); when
+    that does not match (e.g. a stage is by-passed or inlined) once more with every stage evaluated down to the generated rules.
+    A difference is only reported when both comparisons differ."""
+    key = f"{A.dr_apply.relpath}::{A.drule.name}.assert_applies"
+    where = where_of(A.dr_apply)
+    assume = {"PATH is None": False}
+
+    def attempt(mode: str, setup: str, flag: str, p: str, label: str):
+        stages = {A.parse.fq: "parse"}
+        if mode == "stages":
+            stages.update({A.prefix.fq: "prefix", A.convert.fq: "convert"})
+        ev = new_eval(repo, A, stages)
+        ev.stage_hook = parse_hook(A)
+        fr = run_source(ev, A, setup)
+        marks = [len(ev.trace.items)]
+        for evn in ("EV1", "EV2"):
+            run_source(ev, A, f"r.assert_applies({evn})", {"r": fr.env.vars.get("r", ("const", None))})
+            marks.append(len(ev.trace.items))
+        probes = []
+        for i, evn in enumerate(("EV1", "EV2")):
+            ev_e = new_eval(repo, A, stages)
+            ev_e.stage_hook = parse_hook(A)
+            run_source(ev_e, A, REFERENCE.format(flag=flag, p=p, ev=evn))
+            probe = Result("C07")
+            c = Comparison(probe, "C07.R3" if i == 0 else "C07.R2", key, where, ev)
+            what = f"{label}: {'first' if i == 0 else 'second'} evaluation == apply(convert(prefix(parse(path), base module)))"
+            atoms = []
+            if mode == "full":
+                atoms = ([("truthy", sym("FLAG"))] if flag == "FLAG" else []) + ([("is", sym("P"), ("const", None))] if p == "P" else [])
+            c.compare(what, trace_of(ev, marks[i], marks[i + 1]), trace_of(ev_e), ev_e, atoms, {"D"}, assume=assume, kind="flow")
+            probes.append((what, probe))
+        return probes
+
+    def clean(probes) -> bool:
+        return all(not pr.violations and not pr.undecided for _w, pr in probes)
+
+    for label, setup, flag, p in PROTOCOLS:
+        staged = attempt("stages", setup, flag, p, label)
+        full = None
+        if not clean(staged):
+            full = attempt("full", setup, flag, p, label)
+        if clean(staged) or clean(full):
+            for what, pr in staged:
+                rule = pr.obligations[0].rule if pr.obligations else "C07.R3"
+                res.add(rule, f"{key}::{what}", True, "equals the reference pipeline built from the public stages" + ("" if clean(staged) else " (after evaluating the stages)"), where, kind="flow")
+            continue
+        first_bad = False
+        for n, ((what, ps), (_w, pf)) in enumerate(zip(staged, full)):
+            if not ps.violations and not ps.undecided:
+                ps = pf  # this evaluation only differs below stage level
+            chosen = ps if ps.violations else pf if pf.violations else ps
+            for o in chosen.violations:
+                # the second evaluation differing *alone* is a matter of state kept between evaluations (aggregation, R2)
+                res.add("C07.R3" if n == 0 or first_bad else "C07.R2", o.construct, False, o.detail, o.where, kind=o.kind)
+            first_bad = first_bad or (n == 0 and bool(chosen.violations))
+            if not chosen.violations:
+                for u in (ps.undecided or pf.undecided):
+                    res.undecide(u["rule"], u["construct"], u["detail"], u["where"])
 
 
 def run(repo: Repo) -> Result:
     res = Result("C07")
     res.explanation = (
-        "Decides the diagram-rule mechanism structurally: (R1) the converter emits, per dependency key, one Rule().modules_that().are_named(key)"
-        ".should_only()/should().import_modules_that().are_named(all targets) (mode chosen by the constructor flag) and, per component, one "
-        "should_not rule over all components minus itself minus its targets, iff that set is non-empty, for every component; (R2) the multi "
-        "applier evaluates every rule, collects exactly AssertionError messages and raises their join after the loop; (R3) the base-module "
-        "prefix is applied to the component set, keys and values (identity without prefix) and every pipeline stage consumes its predecessor."
+        "Decides the diagram-rule mechanism by symbolic evaluation of the public entry points on symbolic inputs and comparison of normal "
+        "forms with a specification: (R1) DependencyToRuleConverter(flag).convert(ParsedDependencies(M, D)) is, in both modes, exactly "
+        "one Rule().modules_that().are_named(k).should_only()/should().import_modules_that().are_named(D[k]) per key k of D plus one "
+        "should_not rule per m in M over M - {m} - D.get(m, {}) emitted iff that set is non-empty; (R2) MultipleRuleApplier(R)."
+        "assert_applies(ev) calls r.assert_applies(ev) for every r in R inside a handler for exactly AssertionError, and raises "
+        "AssertionError('\\n'.join(messages)) after the loop iff a message was collected, also on a re-used DiagramRule; (R3) "
+        "ModulePrefixer.prefix maps M, the keys and the values of D through n -> f'{p}.{n}' (identity for None) and DiagramRule."
+        "assert_applies equals apply(convert(prefix(parse(path), base module))) for both naming options and the default mode."
     )
-    res.not_decided = "equivalence with pairwise conformance on all graphs (relies on C01 for each generated rule)."
-    res.trusted_base = ["C01 (meaning of the generated module rules)", "engine CFG / flow"]
-    T = types_of(repo)
-    conv = repo.cls(DCONV, "DependencyToRuleConverter")
-    gen = conv.methods.get("_generate_rule")
-    csr = conv.methods.get("_convert_should_rules")
-    csn = conv.methods.get("_convert_should_not_rules")
-    cv = conv.methods.get("convert")
-    if not all((gen, csr, csn, cv)):
-        raise AnalysisError("DependencyToRuleConverter methods not found")
-    # ---- R1 should(-only) rules
-    comp = [n for n in own_nodes(csr.node) if isinstance(n, (ast.ListComp, ast.For))]
-    ok = False
-    if len(comp) == 1 and isinstance(comp[0], ast.ListComp):
-        c = comp[0]
-        g = c.generators[0]
-        tv = [dotted(x) for x in g.target.elts] if isinstance(g.target, ast.Tuple) else []
-        ok = len(c.generators) == 1 and not g.ifs and isinstance(g.iter, ast.Call) and is_attr_call(g.iter, "items") and norm(g.iter.func.value).endswith(".dependencies") and isinstance(c.elt, ast.Call) and is_attr_call(c.elt, gen.name) and [dotted(a) for a in c.elt.args] == tv
-    res.add("C07.R1", f"{csr.relpath}::{csr.qualname}::one rule per component with arrows", ok, "every key of the dependency map yields one rule over its own targets" if ok else "not every dependor yields exactly one rule over its own dependees", where(csr, csr.node), kind="structural")
-    imp, tgt = gen.param_names[1], gen.param_names[2]
-    subj = [s for s in own_nodes(gen.node) if isinstance(s, ast.Assign) and isinstance(s.value, ast.Call) and chain(s.value)[0][0] == "Rule"]
-    ok = len(subj) == 1
-    if ok:
-        ch = chain(subj[0].value)
-        ok = [c_[0] for c_ in ch] == ["Rule", "modules_that", "are_named"] and dotted(ch[2][1][0]) == imp and not ch[0][1]
-    sv = dotted(subj[0].targets[0]) if subj else None
-    res.add("C07.R1", f"{gen.relpath}::{gen.qualname}::subject = the dependor", ok, "subject of the generated rule is the component itself, by name" if ok else "the generated rule's subject is not `Rule().modules_that().are_named(<dependor>)`", where(gen, gen.node), kind="structural")
-    verbs = [s for s in own_nodes(gen.node) if isinstance(s, ast.Assign) and isinstance(s.value, ast.Call) and is_attr_call(s.value, "should_only") or isinstance(s, ast.Assign) and isinstance(s.value, ast.Call) and is_attr_call(s.value, "should")]
-    mode = {}
-    for s in verbs:
-        if dotted(s.value.func.value) == sv:
-            mode[s.value.func.attr] = guard_formula(gen, s)
-    flag = truth(gen, "self._should_only_rule")
-    ok = set(mode) == {"should", "should_only"} and equivalent(mode["should_only"], flag) and equivalent(mode["should"], f_not(flag))
-    res.add("C07.R1", f"{gen.relpath}::{gen.qualname}::mode", ok, "should_only iff the should-only flag is set, else should" if ok else "the verb of the generated rule is not `should_only` exactly when the should-only flag is set and `should` otherwise", where(gen, gen.node), kind="decision-table")
-    rets = [s for s in own_nodes(gen.node) if isinstance(s, ast.Return)]
-    ok = len(rets) == 1
-    if ok:
-        ch = chain(rets[0].value)
-        names = [c_[0] for c_ in ch]
-        ok = len(ch) == 3 and names[1:] == ["import_modules_that", "are_named"] and names[0].startswith("$") and len(ch[2][1]) == 1
-        if ok:
-            a = ch[2][1][0]
-            inner = a.args[0] if isinstance(a, ast.Call) and dotted(a.func) in ("list", "sorted", "tuple") and a.args else a
-            ok = dotted(inner) == tgt
-            vv = names[0][1:]
-            ok = ok and all(dotted(s.targets[0]) == vv for s in verbs)
-    res.add("C07.R1", f"{gen.relpath}::{gen.qualname}::objects = all drawn targets", ok, "the rule's objects are all targets of the component, direction 'import'" if ok else "the generated rule is not `<verb>.import_modules_that().are_named(<all dependees>)`", where(gen, gen.node), kind="structural")
-    # ---- R1 should-not rules
-    P = csn.param_names[1]
-    loops = [l for l in own_nodes(csn.node) if isinstance(l, ast.For)]
-    ok = len(loops) == 1 and isinstance(loops[0].iter, ast.Call) and dotted(loops[0].iter.func) == "sorted" and norm(loops[0].iter.args[0]) == f"{P}.all_modules" and not any(isinstance(x, (ast.Break, ast.Continue)) for x in ast.walk(loops[0]))
-    res.add("C07.R1", f"{csn.relpath}::{csn.qualname}::every component considered", ok, "the should-not rules range over every component of the diagram" if ok else "the should-not rules do not range over every component (some are skipped or the loop is cut short)", where(csn, csn.node), kind="structural")
-    if loops:
-        lp = loops[0]
-        mv = dotted(lp.target)
-        asg = {dotted(s.targets[0]): s.value for s in ast.walk(lp) if isinstance(s, ast.Assign)}
-        app = [c for c in ast.walk(lp) if isinstance(c, ast.Call) and is_attr_call(c, "append")]
-        ok = len(app) == 1
-        detail = "exactly one rule appended per component"
-        if ok:
-            ch = chain(app[0].args[0])
-            names = [c_[0] for c_ in ch]
-            ok = names == ["Rule", "modules_that", "are_named", "should_not", "import_modules_that", "are_named"] and dotted(ch[2][1][0]) == mv
-            obj = ch[5][1][0] if ok else None
-            detail = "should_not / import rule with the component as subject" if ok else f"the appended rule is `{'.'.join(names)}`"
-            if ok:
-                # objects = all_modules - {self} - imported
-                def resolve(e, depth=0):
-                    if isinstance(e, ast.Call) and dotted(e.func) in ("sorted", "list") and e.args:
-                        return resolve(e.args[0], depth)
-                    if isinstance(e, ast.Name) and e.id in asg and depth < 4:
-                        return resolve(asg[e.id], depth + 1)
-                    return e
-
-                def flat_minus(e) -> tuple[str, list[str]] | None:
-                    e = resolve(e)
-                    if isinstance(e, ast.BinOp) and isinstance(e.op, ast.Sub):
-                        left = flat_minus(e.left)
-                        r = resolve(e.right)
-                        if left is None:
-                            return None
-                        return left[0], left[1] + [norm(r)]
-                    return norm(e), []
-
-                fm = flat_minus(obj)
-                imported_txt = f"{P}.dependencies.get({mv}, set())"
-                want_minus = sorted([f"{{{mv}}}", imported_txt])
-                ok = fm is not None and fm[0] == f"{P}.all_modules" and sorted(fm[1]) == want_minus
-                detail = "objects = all components minus the component itself minus its drawn targets" if ok else f"the objects of the should-not rule are `{fm[0] if fm else '?'}` minus {fm[1] if fm else '?'}: expected all components minus {{component}} minus its drawn targets"
-                g = guard_formula(csn, app[0])
-                nonempty = [k for k, v in asg.items() if norm(obj) in (k, f"sorted({k})") or k in norm(obj)]
-                ok2 = any(equivalent(g, truth(csn, k)) for k in asg if norm(resolve(ast.Name(id=k, ctx=ast.Load()))) == norm(resolve(obj)))
-                res.add("C07.R1", repo.key(csn, stmt_of(app[0])) + " [emitted iff non-empty]", ok2, "the rule is emitted exactly when there is something to forbid" if ok2 else "the should-not rule is not emitted exactly when its object set is non-empty", where(csn, app[0]), kind="dominance")
-        res.add("C07.R1", repo.key(csn, lp) + " [should-not rule]", ok, detail, where(csn, lp), kind="structural")
-    rets = [s for s in own_nodes(cv.node) if isinstance(s, ast.Return)]
-    dp = cv.param_names[1]
-    calls = {c.func.attr: c for c in calls_in(cv.node) if isinstance(c.func, ast.Attribute) and c.func.attr in (csr.name, csn.name)}
-    ok = len(rets) == 1 and set(calls) == {csr.name, csn.name} and all(len(c.args) == 1 and dotted(c.args[0]) == dp and not c.keywords for c in calls.values())
-    if ok:
-        v = rets[0].value
-        names = sorted(dotted(x) for x in ([v.left, v.right] if isinstance(v, ast.BinOp) and isinstance(v.op, ast.Add) else []))
-        srcs = sorted(dotted(stmt_of(c).targets[0]) for c in calls.values() if isinstance(stmt_of(c), ast.Assign))
-        ok = names == srcs and len(names) == 2
-    res.add("C07.R1", f"{cv.relpath}::{cv.qualname}::both rule lists, whole diagram", ok, "convert returns the should(-only) rules plus the should-not rules of the whole diagram" if ok else "convert does not return `should rules + should-not rules`, both computed from the whole diagram without extra restrictions", where(cv, cv.node), kind="structural")
-    # ---- R2
-    mra = repo.cls(MULTI, "MultipleRuleApplier")
-    aa = mra.methods.get("assert_applies")
-    loops = [l for l in own_nodes(aa.node) if isinstance(l, ast.For)]
-    ok = len(loops) == 1 and norm(loops[0].iter) == "self._rule_appliers" and not any(isinstance(x, (ast.Break, ast.Return, ast.Raise)) for x in ast.walk(loops[0]))
-    res.add("C07.R2", f"{aa.relpath}::{aa.qualname}::every rule evaluated", ok, "the loop covers all rule appliers and cannot be left early" if ok else "not every rule is evaluated (loop over a subset, or left / raising inside the loop)", where(aa, aa.node), kind="structural")
-    hs = [h for h in own_nodes(aa.node) if isinstance(h, ast.ExceptHandler)]
-    ok = len(hs) == 1 and dotted(hs[0].type) == "AssertionError" and hs[0].name is not None
-    msgs = None
-    if ok:
-        app = [c for c in ast.walk(hs[0]) if isinstance(c, ast.Call) and is_attr_call(c, "append")]
-        ok = len(app) == 1 and hs[0].name in norm(app[0].args[0])
-        msgs = dotted(app[0].func.value) if app else None
-        t = parent(hs[0])
-        ok = ok and isinstance(t, ast.Try) and len(t.body) == 1 and any(is_attr_call(c, "assert_applies") and dotted(c.func.value) == dotted(loops[0].target) for c in ast.walk(t.body[0]) if isinstance(c, ast.Call)) if loops else False
-    res.add("C07.R2", f"{aa.relpath}::{aa.qualname}::collects AssertionError only", ok, "exactly AssertionError is caught and its message collected" if ok else "the handler does not catch exactly AssertionError and collect its message", where(aa, aa.node), kind="effect")
-    raises = [r for r in own_nodes(aa.node) if isinstance(r, ast.Raise)]
-    ok = len(raises) == 1 and msgs is not None and equivalent(guard_formula(aa, raises[0]), truth(aa, msgs)) and not loops_around(raises[0], aa.node)
-    if ok:
-        j = [c for c in ast.walk(raises[0]) if isinstance(c, ast.Call) and is_attr_call(c, "join")]
-        ok = dotted(raises[0].exc.func) == "AssertionError" and len(j) == 1 and dotted(j[0].args[0]) == msgs
-    res.add("C07.R2", f"{aa.relpath}::{aa.qualname}::raise joined message after the loop", ok, "after the loop, AssertionError with all collected messages is raised iff any rule failed" if ok else "the aggregated AssertionError is not raised after the loop with the join of all collected messages", where(aa, aa.node), kind="dominance")
-    # ---- R3
-    pref = repo.cls(DRULE, "ModulePrefixer")
-    pm = pref.methods.get("prefix")
-    ap = pref.methods.get("_add_prefix_to_module")
-    if pm is None or ap is None:
-        raise AnalysisError("ModulePrefixer.prefix / _add_prefix_to_module not found")
-
-    def sources(f: FuncInfo, e: ast.expr):
-        if isinstance(e, ast.Attribute) and dotted(e.value) == pm.param_names[1] and e.attr in ("all_modules", "dependencies"):
-            return {e.attr.upper()}
-        return None
-
-    def transfer(f: FuncInfo, call: ast.Call, names, args, recv, kwargs):
-        if isinstance(call.func, ast.Attribute) and call.func.attr == ap.name:
-            # idempotent on already-prefixed provenance (input and output are the same dataclass: the field store feeds back)
-            return {t if t.startswith("P:") else "P:" + t for t in (args[0] if args else ())}
-        return None
-
-    flow = Flow(repo, T, Spec(sources=sources, transfer=transfer, objects_carry=False, scope=lambda f: f is pm or f.outer is pm))
-    ctor = [c for c in calls_in(pm.node) if dotted(c.func) == "ParsedDependencies"]
-    if len(ctor) != 1:
-        raise AnalysisError("ModulePrefixer.prefix: construction of ParsedDependencies not found")
-    kw = {k.arg: k.value for k in ctor[0].keywords}
-    if not kw and len(ctor[0].args) == 2:
-        kw = {"all_modules": ctor[0].args[0], "dependencies": ctor[0].args[1]}
-    t_all = set(flow.tags(kw["all_modules"])) if "all_modules" in kw else set()
-    ok = t_all == {"P:ALL_MODULES"} and _derives_from(pm, kw.get("all_modules"), pm.param_names[1], "all_modules")
-    res.add("C07.R3", f"{pm.relpath}::{pm.qualname}::component set prefixed", ok, "the resulting component set is the prefixed image of all declared/referenced components" if ok else f"the component set of the prefixed diagram derives from {sorted(t_all) or 'nothing'} instead of the prefixed `all_modules`: components without arrows are lost (no should-not rule protects them)", where(pm, ctor[0]), kind="flow")
-    dv = kw.get("dependencies")
-    ok = isinstance(dv, ast.DictComp) and not any(g.ifs for g in dv.generators) and set(flow.tags(dv.key)) == {"P:DEPENDENCIES"} and isinstance(dv.value, (ast.SetComp,)) and not any(g.ifs for g in dv.value.generators) and set(flow.tags(dv.value.elt)) == {"P:DEPENDENCIES"}
-    if not ok and dv is not None and not isinstance(dv, ast.DictComp):
-        td = set(flow.tags(dv))
-        ok = td == {"P:DEPENDENCIES"}
-    res.add("C07.R3", f"{pm.relpath}::{pm.qualname}::keys and values prefixed", ok, "every key and every value of the dependency map is prefixed" if ok else "not every key and value of the dependency map is prefixed", where(pm, ctor[0]), kind="flow")
-    rets = [s for s in own_nodes(ap.node) if isinstance(s, ast.Return)]
-    n_, p_ = ap.param_names[1], ap.param_names[2]
-    ident = [r for r in rets if dotted(r.value) == n_]
-    built = [r for r in rets if r not in ident]
-    ok = len(ident) == 1 and len(built) == 1 and implies(guard_formula(ap, ident[0]), atom(f"{p_} is None")) and isinstance(built[0].value, ast.JoinedStr) and [norm(v.value) if isinstance(v, ast.FormattedValue) else v.value for v in built[0].value.values] == [p_, ".", n_]
-    res.add("C07.R3", f"{ap.relpath}::{ap.qualname}::p.name", ok, "identity without a base module, otherwise '<prefix>.<name>'" if ok else "a component name is not mapped to '<prefix>.<name>' (identity when no base module is set)", where(ap, ap.node), kind="structural")
-    dr = repo.cls(DRULE, "DiagramRule")
-    wb = dr.methods.get("with_base_module")
-    ok = wb is not None and any(isinstance(s, ast.Assign) and dotted(s.targets[0]) == "self._name_relative_to_root" and dotted(s.value) == wb.param_names[1] for s in own_nodes(wb.node))
-    res.add("C07.R3", f"{dr.module.relpath}::DiagramRule.with_base_module::stores the prefix", ok, "with_base_module stores its argument as the prefix" if ok else "with_base_module does not store its argument as the prefix", kind="flow")
-    init = dr.methods.get("__init__")
-    d = T._default_of(init, next(p for p in init.params if p.arg == "should_only_rule")) if init and "should_only_rule" in init.param_names else None
-    ok = isinstance(d, ast.Constant) and d.value is True and any(isinstance(s, ast.Assign) and dotted(s.targets[0]) == "self._should_only_rule" and dotted(s.value) == "should_only_rule" for s in own_nodes(init.node))
-    res.add("C07.R3", f"{dr.module.relpath}::DiagramRule.__init__::default mode", ok, "default mode is should-only and the flag is stored" if ok else "the default mode is not should-only (or the flag is not stored)", kind="structural")
-    # pipeline
-    aa = dr.methods.get("assert_applies")
-    stages = []
-    for s in aa.body:
-        c = s.value if isinstance(s, (ast.Assign, ast.AnnAssign, ast.Expr)) else None
-        if isinstance(c, ast.Call):
-            tgt = dotted(s.targets[0]) if isinstance(s, ast.Assign) else dotted(s.target) if isinstance(s, ast.AnnAssign) else None
-            stages.append((tgt, c))
-    names = [c.func.attr if isinstance(c.func, ast.Attribute) else dotted(c.func) for _t, c in stages]
-    ok = names == ["_assert_required_configuration_present", "parse", "_add_base_module_path", "_convert_to_rules", "_apply_rules"]
-    if ok:
-        ok = dotted(stages[2][1].args[0]) == stages[1][0] and dotted(stages[3][1].args[0]) == stages[2][0] and dotted(stages[4][1].args[0]) == stages[3][0] and dotted(stages[4][1].args[1]) == aa.param_names[1] and norm(stages[1][1].args[0]) == "self._file_path"
-    res.add("C07.R3", f"{aa.relpath}::{aa.qualname}::pipeline", ok, "check -> parse(file) -> prefix -> convert -> apply(evaluable), each stage consuming its predecessor" if ok else f"the diagram-rule pipeline is {names}: a stage is skipped or does not consume its predecessor's result", where(aa, aa.node), kind="flow")
-    for mname, want in (("_add_base_module_path", "self._name_relative_to_root"), ("_convert_to_rules", "self._should_only_rule")):
-        m = dr.methods.get(mname)
-        ok = m is not None and any(want in norm(c, 200) for c in calls_in(m.node))
-        res.add("C07.R3", f"{dr.module.relpath}::DiagramRule.{mname}::uses {want}", ok, f"{mname} uses {want}" if ok else f"{mname} does not use {want}", kind="flow")
-    ar = dr.methods.get("_apply_rules")
-    ok = ar is not None and any(isinstance(c.func, ast.Attribute) and c.func.attr == "assert_applies" and isinstance(c.func.value, ast.Call) and dotted(c.func.value.func) == "MultipleRuleApplier" and dotted(c.func.value.args[0]) == ar.param_names[1] and dotted(c.args[0]) == ar.param_names[2] for c in calls_in(ar.node))
-    res.add("C07.R3", f"{dr.module.relpath}::DiagramRule._apply_rules::all rules applied to the evaluable", ok, "all generated rules are applied together" if ok else "the generated rules are not all applied through MultipleRuleApplier(rules).assert_applies(evaluable)", kind="flow")
+    res.not_decided = "equivalence with pairwise conformance on all graphs (relies on C01 for each generated rule); order of the generated rules and of the names inside one rule."
+    res.trusted_base = ["C01 (meaning of the generated module rules)", "rules/c07_sym.py (symbolic evaluator)", "rules/c07_norm.py (normal form)", "rules/c07_model.py (finite-model comparison of normal forms that differ as text)"]
+    A = Anchors(repo)
+    for rule, check, f in (("C07.R1", check_convert, A.convert), ("C07.R2", check_applier, A.mra_apply), ("C07.R3", check_prefix, A.prefix), ("C07.R3", check_pipeline, A.dr_apply)):
+        try:
+            check(repo, res, A)
+        except AnalysisError:
+            raise
+        except (RecursionError, KeyError, IndexError, TypeError, ValueError, AttributeError) as e:
+            # never a verdict: the evaluator met a shape it was not built for
+            res.undecide(rule, f"{f.relpath}::{f.qualname}", f"symbolic evaluation failed ({type(e).__name__}: {e})", where_of(f))
+    if not res.undecided:
+        for rule, n in (("C07.R1", 4), ("C07.R2", 2), ("C07.R3", 4)):
+            res.floor(rule, n, sum(1 for o in res.obligations if o.rule == rule))
     return res
-
-
-def _derives_from(f: FuncInfo, e: ast.expr | None, param: str, attr: str) -> bool:
-    """Syntactic confirmation (the flow result feeds back through the dataclass field): the expression iterates `<param>.<attr>`."""
-    if e is None:
-        return False
-    seen = set()
-    work = [e]
-    while work:
-        x = work.pop()
-        for n in ast.walk(x):
-            if isinstance(n, ast.Attribute) and dotted(n.value) == param and n.attr == attr:
-                return True
-            if isinstance(n, ast.Name) and n.id not in seen:
-                seen.add(n.id)
-                for s in own_nodes(f.node):
-                    if isinstance(s, ast.Assign) and dotted(s.targets[0]) == n.id:
-                        work.append(s.value)
-    return False
